@@ -64,6 +64,10 @@ type C15Case struct {
 	Rand int64 `json:"rand_seed,omitempty"`
 	// Again: number of further loads through the same DatabaseRecovery object
 	Again int `json:"further_loads_same_object,omitempty"`
+	// NoNotebook: the caller passes "" as the notebook path (no notebook configured): the same as a notebook that is
+	// merely absent. Spelling: the paths are passed with redundant elements ("//", "/./", "x/..").
+	NoNotebook bool `json:"no_notebook_path,omitempty"`
+	Spelling   int  `json:"path_spelling,omitempty"`
 	// IOLat: simulated duration of the I/O events, cycled (a slow or uneven disk): attempts then take time, and not
 	// the same time each
 	IOLat []int64 `json:"io_latency_ns,omitempty"`
@@ -149,6 +153,8 @@ func genC15(rt *rapid.T) C15Case {
 	}
 	c.Rand = rapid.Int64Range(1, 1<<20).Draw(rt, "randseed")
 	c.Again = rapid.SampledFrom([]int{0, 0, 0, 1, 2, 4}).Draw(rt, "again")
+	c.NoNotebook = rapid.IntRange(0, 7).Draw(rt, "nonotebook") == 0
+	c.Spelling = rapid.SampledFrom([]int{0, 0, 0, 1, 2, 3}).Draw(rt, "spelling")
 	if rapid.IntRange(0, 3).Draw(rt, "slowdisk") == 0 {
 		c.IOLat = rapid.SliceOfN(rapid.SampledFrom([]int64{0, 0, int64(time.Millisecond), int64(40 * time.Millisecond), int64(700 * time.Millisecond), int64(3 * time.Second)}), 1, 7).Draw(rt, "iolat")
 	}
@@ -420,6 +426,9 @@ func runC15Body(c C15Case) *Outcome {
 	}
 	defer simtime.Uninstall()
 	disk := simos.NewDisk()
+	if c.NoNotebook {
+		c.Personal = FileState{Kind: "missing"} // no notebook path at all: as if it were merely absent
+	}
 	var plan []simos.Fault
 	plan = append(plan, c.Main.place(disk, c15Main)...)
 	plan = append(plan, c.Personal.place(disk, c15Personal)...)
@@ -434,6 +443,25 @@ func runC15Body(c C15Case) *Outcome {
 		o.Violation = fmt.Sprintf(f, a...) + "\n  " + desc + "\n  I/O trace: " + traceString(simos.Trace()) + fmt.Sprintf("\n  sleeps: %v", simtime.Sleeps())
 		o.Sig = "C15/" + sig
 		return o
+	}
+	spell := func(p string) string {
+		switch c.Spelling {
+		case 1:
+			return strings.Replace(p, "/", "//", 1)
+		case 2:
+			return filepath.Dir(p) + "/./" + filepath.Base(p)
+		case 3:
+			return filepath.Dir(p) + "/zz/../" + filepath.Base(p)
+		}
+		return p
+	}
+	mainArg, persArg := spell(c15Main), spell(c15Personal)
+	if c.Spelling == 3 {
+		disk.MkdirAllRaw(filepath.Dir(c15Main)+"/zz", 0o755)
+		disk.MkdirAllRaw(filepath.Dir(c15Personal)+"/zz", 0o755)
+	}
+	if c.NoNotebook {
+		persArg = ""
 	}
 	dr := recovery.NewDatabaseRecovery(recovery.RetryConfig{MaxAttempts: c.Cfg.Attempts, BaseDelay: time.Duration(c.Cfg.BaseNS), MaxDelay: time.Duration(c.Cfg.CapNS), BackoffFactor: c.Cfg.Factor})
 	// Again: further loads through the SAME recovery object (a long-lived caller); every load must satisfy the statement
@@ -460,7 +488,7 @@ func runC15Body(c C15Case) *Outcome {
 					panic(pan)
 				}
 			}()
-			db, err = dr.LoadDatabaseWithFallback(c15Main, c15Personal)
+			db, err = dr.LoadDatabaseWithFallback(mainArg, persArg)
 		}()
 		trace := simos.Trace()[traceOff:]
 		traceOff += len(trace)
